@@ -21,7 +21,32 @@ fn behave() -> Box<dyn FnMut(usize, &Cb) -> Behavior> {
         WOp::Finish,
     ]);
     let done = Arc::new(vec![WOp::Completed(0, 0)]);
+    let mut many = vec![WOp::Start(cols.clone())];
+    for i in 0..300 {
+        many.push(WOp::WriteRow(vec![Val::I32(i)]));
+    }
+    many.push(WOp::Finish);
+    let many = Arc::new(many);
+    let two = Arc::new(vec![
+        WOp::Start(cols.clone()),
+        WOp::WriteRow(vec![Val::I32(1)]),
+        WOp::FinishOne,
+        WOp::Start(cols.clone()),
+        WOp::Finish,
+    ]);
+    let err = Arc::new(vec![WOp::Error(msql_srv::ErrorKind::ER_NO_SUCH_TABLE, b"no such table".to_vec())]);
+    let late_err = Arc::new(vec![
+        WOp::Start(cols.clone()),
+        WOp::WriteRow(vec![Val::I32(1)]),
+        WOp::FinishError(msql_srv::ErrorKind::ER_QUERY_INTERRUPTED, b"interrupted".to_vec()),
+    ]);
     Box::new(move |_, cb| match cb {
+        Cb::Query(t) if t == "many" => Behavior::Prog(many.clone()),
+        Cb::Query(t) if t == "two" => Behavior::Prog(two.clone()),
+        Cb::Query(t) if t == "err" => Behavior::Prog(err.clone()),
+        Cb::Query(t) if t == "late" => Behavior::Prog(late_err.clone()),
+        Cb::Prepare(t) if t == "bad" => Behavior::PrepError(msql_srv::ErrorKind::ER_PARSE_ERROR, b"no".to_vec()),
+        Cb::Init(t) if t == "nodb" => Behavior::InitErr(msql_srv::ErrorKind::ER_BAD_DB_ERROR, b"unknown".to_vec()),
         Cb::Query(t) if t.starts_with('r') => Behavior::Prog(rs.clone()),
         Cb::Query(_) => Behavior::Prog(done.clone()),
         Cb::Execute { .. } => Behavior::Prog(rs.clone()),
@@ -59,6 +84,25 @@ fn alphabet() -> Vec<(ClientCmd, &'static str)> {
         (ClientCmd::new(with_byte(COM_INIT_DB, b"db")), "init-db"),
         (ClientCmd::new(with_byte(COM_FIELD_LIST, b"t\0")), "field-list"),
     ]
+}
+
+/// the nine kinds above plus replies of other shapes: errors from the shim (at once and after
+/// rows), chained resultsets, a reply of 300 packets, refusals of PREPARE and INIT_DB, and the
+/// commands the library answers by itself
+fn wide_alphabet() -> Vec<(ClientCmd, &'static str)> {
+    let mut a = alphabet();
+    a.extend(vec![
+        (q(b"many"), "query->300 rows"),
+        (q(b"two"), "query->two resultsets"),
+        (q(b"err"), "query->ERR"),
+        (q(b"late"), "query->rows then ERR"),
+        (ClientCmd::new(with_byte(COM_STMT_PREPARE, b"bad")), "prepare refused"),
+        (ClientCmd::new(with_byte(COM_INIT_DB, b"nodb")), "init-db refused"),
+        (q(b"USE db"), "USE query"),
+        (q(b"SELECT @@max_allowed_packet"), "SELECT @@ probe"),
+        (ClientCmd::new(cmd_close(9)), "close of an unknown id"),
+    ]);
+    a
 }
 
 /// run one conversation under one arrival schedule and evaluate the invariant at every read
@@ -219,6 +263,9 @@ fn cuts_from_index(ci: u64, n: usize) -> Option<Vec<usize>> {
 
 impl Family for Batchings {
     fn name(&self) -> String {
+        if self.alpha.len() > 9 {
+            return format!("batchings-{}-kinds-len-{}-cuts-{}", self.alpha.len(), self.len, self.max_cuts);
+        }
         format!("batchings-len-{}-cuts-{}", self.len, self.max_cuts)
     }
     fn len(&self) -> u64 {
@@ -561,6 +608,7 @@ pub fn build(quick: bool) -> Check {
     if quick {
         families.push(Box::new(Batchings { alpha: a.clone(), len: 4, max_cuts: 0 }));
         families.push(Box::new(Batchings { alpha: a.clone(), len: 1, max_cuts: 2 }));
+        families.push(Box::new(Batchings { alpha: wide_alphabet(), len: 3, max_cuts: 0 }));
         families.push(Box::new(Batchings { alpha: a.clone(), len: 2, max_cuts: 1 }));
         families.push(Box::new(SmallComps::new(14)));
         families.push(Box::new(ReplySizes::new(30_000)));
@@ -570,6 +618,7 @@ pub fn build(quick: bool) -> Check {
     } else {
         families.push(Box::new(Batchings { alpha: a.clone(), len: 5, max_cuts: 0 }));
         families.push(Box::new(Batchings { alpha: a.clone(), len: 2, max_cuts: 2 }));
+        families.push(Box::new(Batchings { alpha: wide_alphabet(), len: 4, max_cuts: 0 }));
         families.push(Box::new(Batchings { alpha: a.clone(), len: 4, max_cuts: 1 }));
         families.push(Box::new(SmallComps::new(15)));
         families.push(Box::new(ReplySizes::new(200_000)));
@@ -580,7 +629,7 @@ pub fn build(quick: bool) -> Check {
     Check {
         id: "C12",
         level: "model_checking",
-        rule: "command lists over {query->OK, query->resultset, prepare, execute, long data, close, ping, init db, field list} (after a fixed PREPARE) x all batchings (the client waits for all owed replies at any subset of message boundaries, from lock-step to fully pipelined; it never sends before the greeting) x cut sets of <= 2 positions; plus all 2^n compositions of small pipelined streams; plus a strict lock-step client receiving replies of every size 0..30000 (200000 in thorough) bytes as one cell, and as r rows for every r up to that total with cells of 0, 1, 2, 5, 9, 16, 37, 100, 255, 1000, 1455, 1456, 1459, 1460 and 4000 bytes (output-side buffering thresholds are approached in many strides); plus a strict lock-step client whose request is 70 KB .. 2*(2^24-1) bytes (exact multiples with their empty closing packet included) under <= 1 (thorough: 2) cuts around every packet header and the last six bytes of the request, and requests whose framed length is 2^k-2..2^k+2 for k = 12..17 (thorough 10..23); two multi-packet requests back to back, pipelined, with a cut around every packet header of the second. Invariant at every read(): the flushed output holds a complete reply (strictly decoded) for every message fully delivered so far. A read while the waiting client holds back its bytes is a hang.".into(),
+        rule: "command lists over {query->OK, query->resultset, prepare, execute, long data, close, ping, init db, field list} (after a fixed PREPARE; lists of 3 (thorough: 4) also over nine more kinds: a 300-packet reply, chained resultsets, ERR at once and after rows, refused PREPARE / INIT_DB, USE, a SELECT @@ probe, close of an unknown id) x all batchings (the client waits for all owed replies at any subset of message boundaries, from lock-step to fully pipelined; it never sends before the greeting) x cut sets of <= 2 positions; plus all 2^n compositions of small pipelined streams; plus a strict lock-step client receiving replies of every size 0..30000 (200000 in thorough) bytes as one cell, and as r rows for every r up to that total with cells of 0, 1, 2, 5, 9, 16, 37, 100, 255, 1000, 1455, 1456, 1459, 1460 and 4000 bytes (output-side buffering thresholds are approached in many strides); plus a strict lock-step client whose request is 70 KB .. 2*(2^24-1) bytes (exact multiples with their empty closing packet included) under <= 1 (thorough: 2) cuts around every packet header and the last six bytes of the request, and requests whose framed length is 2^k-2..2^k+2 for k = 12..17 (thorough 10..23); two multi-packet requests back to back, pipelined, with a cut around every packet header of the second. Invariant at every read(): the flushed output holds a complete reply (strictly decoded) for every message fully delivered so far. A read while the waiting client holds back its bytes is a hang.".into(),
         assumptions: vec!["bytes written but not flushed are invisible to the simulated client".into()],
         bounds: json!({"max_commands": if quick {4} else {5}, "max_cuts": 2}),
         exhaustive: true,
